@@ -94,6 +94,11 @@ impl DiffTool {
         let mut line_index = 0;
         let mut diffs = vec![];
         let mut match_start = None;
+        #[cfg(feature = "verif")]
+        crate::verif::emit(
+            "DiffStart",
+            &format!("\"n\":{},\"m\":{}", self.expectations.len(), lines.len()),
+        );
 
         // iterate all output expectations and all lines of (actual) output
         // in one loop until reaching the end of either one
@@ -127,6 +132,8 @@ impl DiffTool {
                             // and then assure the next expectation is selected
                             expectation_index += 1;
                             match_start = None;
+                            #[cfg(feature = "verif")]
+                            crate::verif::diff_step("MultiYield", expectation_index, line_index, match_start);
                             continue;
                         }
                     }
@@ -138,6 +145,8 @@ impl DiffTool {
 
                     // .. and proceed the multiline match in the next line
                     line_index += 1;
+                    #[cfg(feature = "verif")]
+                    crate::verif::diff_step("MultiConsume", expectation_index, line_index, match_start);
                     continue;
                 }
 
@@ -149,6 +158,8 @@ impl DiffTool {
                 });
                 line_index += 1;
                 expectation_index += 1;
+                #[cfg(feature = "verif")]
+                crate::verif::diff_step("SingleMatch", expectation_index, line_index, match_start);
                 continue;
             }
 
@@ -165,6 +176,8 @@ impl DiffTool {
                 });
                 match_start = None;
                 expectation_index += 1;
+                #[cfg(feature = "verif")]
+                crate::verif::diff_step("RunEnd", expectation_index, line_index, match_start);
                 continue;
             }
             match_start = None;
@@ -187,6 +200,8 @@ impl DiffTool {
 
                     // .. then continue with matching expectation
                     expectation_index = next_expectation_index;
+                    #[cfg(feature = "verif")]
+                    crate::verif::diff_step("PeekExp", expectation_index, line_index, match_start);
                 }
 
                 //     .. the next matching line for the current expectation
@@ -198,6 +213,8 @@ impl DiffTool {
 
                     // .. then continue with matching line ..
                     line_index = next_line_index;
+                    #[cfg(feature = "verif")]
+                    crate::verif::diff_step("PeekLine", expectation_index, line_index, match_start);
                 }
 
                 //     .. neither
@@ -210,6 +227,8 @@ impl DiffTool {
                         });
                     }
                     expectation_index += 1;
+                    #[cfg(feature = "verif")]
+                    crate::verif::diff_step("PeekNone", expectation_index, line_index, match_start);
                 }
             }
         }
@@ -243,6 +262,8 @@ impl DiffTool {
             });
         }
 
+        #[cfg(feature = "verif")]
+        crate::verif::diff_step("TailStep", expectation_index, line_index, None);
         Ok(Diff::new(diffs))
     }
 
